@@ -231,7 +231,8 @@ def finalize(run, prop):
         "makes it accepted (left, right or both inputs), (c) simple-class pipelines never raise SubqueryError, (d) Polars never raises it, (e) I3, "
         "(f) overwritten columns whose older versions are used through kept references after a subquery (same name several times inside it): "
         "export == REF, second export and second build_query identical, (g) subqueries from which no column is needed, unions whose operands "
-        "are subqueries or unions, alias chains",
+        "are subqueries or unions, alias chains, arrange by a window / aggregate column followed by a window function without arrange= (its "
+        "inherited sort key is a window function: SubqueryError or one correct statement)",
         pipeline.ASSUME_COMMON,
     )
 
